@@ -166,7 +166,7 @@ def known_class(pid, case, impl_obs, model_obs):
             # the implementation's observation must be the documented kind of failure (obs_prefix), so that another
             # failure on an input of the known class (a panic, a different relation failing) is still reported
             want = f.get("obs_prefix")
-            if rec and case.startswith(rec) and (not want or impl_obs.startswith(want)):
+            if rec and want and case.startswith(rec) and impl_obs.startswith(want):
                 return f
     return None
 
@@ -286,8 +286,9 @@ def run(pid, tier, seed):
         impl_dev = read_lines(os.path.join(work, "impl_dev.txt"))
         if len(impl_dev) != len(cases):
             return cannot_run(pid, "line count mismatch cases=%d impl(overflow-checked build)=%d (the harness died)" % (len(cases), len(impl_dev)), "")
-    if len(model) != len(cases) or len(impl) != len(cases):
-        return cannot_run(pid, "line count mismatch cases=%d impl=%d model=%d (a runner died)" % (len(cases), len(impl), len(model)), "")
+    if len(model) != len(cases) or len(impl) != len(cases) or len(meta) != len(cases):
+        return cannot_run(pid, "line count mismatch cases=%d impl=%d model=%d meta=%d (a runner died)"
+                          % (len(cases), len(impl), len(model), len(meta)), "")
 
     # --- diff
     diffs = []
